@@ -39,3 +39,15 @@ Theorem C03_closed_unsat : forall L, sound_ok L -> forall t b tk,
   forall ev, wcomp (pl_t L) ev -> ~ bsat (pl_t L) ev b.
 Proof. exact check_sound. Qed.
 Print Assumptions C03_closed_unsat.
+
+(* Termination: under a linear weight assignment for which every rule strictly
+   decreases (obligation term_ok, generated and kernel-checked per logic), every
+   accepted certificate - every legal run - performs at most (m+1)^(total weight
+   of the trunk) expansion steps, m the largest branching of a rule. *)
+From Coq Require Import Arith.
+From PT Require Import Tab.PropTerm.
+Theorem C03_terminates : forall L ws m, term_ok L ws m -> forall t b tk,
+  check L t b tk = true -> (forall j, memn j tk = true -> j < length b) ->
+  tf_count t <= (S m) ^ (phi ws b tk).
+Proof. exact tf_steps_bounded. Qed.
+Print Assumptions C03_terminates.
